@@ -208,8 +208,8 @@ Index(v, i) ==
                  IN  IF m >= 0 /\ m < Len(v.v) THEN v.v[m + 1] ELSE Nil
           ELSE Nil)
     [] v.k = "map" ->
-         (CASE i.k = "str" -> IF MapHas(v, i.v) THEN MapGet(v, i.v)
-                              ELSE IF i.v = B_size THEN Unspec ELSE Nil
+         \* (m["size"] is a key lookup like any other: only the property form m.size falls back to the entry count)
+         (CASE i.k = "str" -> IF MapHas(v, i.v) THEN MapGet(v, i.v) ELSE Nil
             [] i.k = "nil" -> Nil
             [] OTHER -> Unspec)
     [] v.k \in {"range", "unspec"} -> Unspec
